@@ -142,6 +142,7 @@ def run(ctx):
                         leaves={TR + 'normalize_and_promote_positive_orientation', TR + 'validate_geometric_cell_orientation'},
                         rule='INSORIENT', what='a cell-creating insertion primitive (fill_cavity / extend_hull)',
                         scope=lambda q_, b_: q_.rsplit('::', 1)[-1].startswith('insert'))
+        _keyremap(ctx, cfg, prog)
         import twins
         ctx.rule('TWIN', 'insert and insert_with_statistics call the same functions (statistics bookkeeping aside)')
         twins.check(ctx, cfg, prog, 'TWIN', lambda q_: q_.rsplit('::', 1)[-1].startswith('insert'), 1)
@@ -229,3 +230,61 @@ def run(ctx):
             for o in ctx.obligations[:6]:
                 ctx.sample({'rule': o['rule'], 'key': o['key'], 'status': o['status']})
     return ctx.finish(EXPLANATION)
+
+
+KEYREMAP_CALL = 'core::delaunay_triangulation::DelaunayTriangulation::maybe_repair_after_insertion'
+
+
+def _keyremap(ctx, cfg, prog):
+    """KEYREMAP: the post-insertion repair can fall back to the heuristic rebuild, which re-issues every VertexKey;
+    `maybe_repair_after_insertion` therefore hands back the key looked up again by UUID.  Wherever a body calls it and
+    then reports success, the VertexKey in the reported value (`Ok(key)`, or the `vertex_key` of the `Inserted`
+    outcome) has that call in its backward slice - the key obtained before the repair may name a different vertex."""
+    import valueflow
+    ctx.rule('KEYREMAP', 'the key reported by insert is the one handed back by the post-insertion repair')
+    mod = ctx.mod(cfg)
+    n = 0
+    for q, b in sorted(prog.bodies.items()):
+        if '::tests::' in q or not b.file.startswith('src/'):
+            continue
+        calls = [bb for bb, t in b.calls() if (t.resolved or t.callee) == KEYREMAP_CALL]
+        if not calls:
+            continue
+        al = mod.aliases(q)
+        after = set()
+        for cb in calls:
+            after |= flow.reach_edges(b, [d for (_, d) in flow.call_flow(b, cb).ok_edges] or b.succs(cb))
+        for e in flow.exit_assignments(b):
+            if e['cls'] != 'ok' or e['bb'] not in after or e.get('stmt') is None:
+                continue
+            keys = set()
+            work = [o.place.local for o in e['stmt'].rv.ops if o.place is not None]
+            seen = set()
+            while work:
+                l = work.pop()
+                if l in seen:
+                    continue
+                seen.add(l)
+                ty = b.locals[l]
+                if ty == 'core::triangulation_data_structure::VertexKey':
+                    keys.add(l)
+                    continue
+                if 'VertexKey' not in ty and 'InsertionOutcome' not in ty:
+                    continue
+                for (_, didx, node) in b.defs.get(l, []):
+                    if didx != 'term' and node.rv.k in ('agg', 'use'):
+                        work += [o.place.local for o in node.rv.ops if o.place is not None]
+            if not keys:
+                continue
+            n += 1
+            bad = []
+            for k in sorted(keys):
+                leaves = valueflow.sources(b, al, k)
+                if not any(x[0] == 'call' and (x[1].resolved or x[1].callee) == KEYREMAP_CALL for x in leaves):
+                    bad.append(b.names.get(k, '_%d' % k))
+            ctx.ob('KEYREMAP', '%s' % (b.root or q), cfg, not bad,
+                   'success reported after maybe_repair_after_insertion: the reported VertexKey %s' % (
+                       'is the one it returned' if not bad else
+                       '(%s) does not come from its result: after a heuristic rebuild every key is re-issued and the key obtained '
+                       'before the repair names a different vertex' % bad), site='%s:%d' % (b.file, e['stmt'].line))
+    ctx.floor('success exits after the post-insertion repair that report a vertex key', 2, n, cfg)
